@@ -1514,6 +1514,10 @@ pub struct Identity {
 pub(crate) struct NoneLayerMarker(());
 static NONE_LAYER_MARKER: NoneLayerMarker = NoneLayerMarker(());
 
+pub(crate) fn is_none_marker(id: TypeId) -> bool {
+    id == TypeId::of::<NoneLayerMarker>()
+}
+
 /// Is a type implementing `Subscriber` `Option::<_>::None`?
 pub(crate) fn subscriber_is_none<S, C>(subscriber: &S) -> bool
 where
@@ -1901,7 +1905,12 @@ feature! {
             // XXX(eliza): it's a bummer we have to do this linear search every
             // time. It would be nice if this could be cached, but that would
             // require replacing the `Vec` impl with an impl for a newtype...
-            if filter::is_psf_downcast_marker(id) && self.iter().any(|s| s.downcast_raw(id).is_none()) {
+            // (`Option::None` elements contain no subscribers and don't count.)
+            if filter::is_psf_downcast_marker(id)
+                && self
+                    .iter()
+                    .any(|s| !subscriber_is_none(s) && s.downcast_raw(id).is_none())
+            {
                 return None;
             }
 
